@@ -27,6 +27,18 @@ CHECKS = {
         note="One family of spectra; pandas' tokenising is exercised but not modelled; instrument files are written from the structure of tests/data.*; header text is space-free for space/semicolon separated files (documented contract).",
         technique="TLA+ spec (Table.tla) + TLC enumeration of header rows and file options; spec->code replay by writing every configuration to a real file and parsing it",
     ),
+    "C08": dict(
+        text="specs/Analysis.tla states the life cycle of an analysis call over DataSet.tla's abstraction (reads only through the unmasked "
+             "view, result frequencies = unmasked ids, residual / pseudo chi-squared / model impedance identities, independence of the "
+             "masked points' payload, inputs untouched); specs/AnalysisConfigs.tla enumerates entry point x variant x mask pattern x input "
+             "order. Each configuration is run for real three times (masked points holding consistent, huge and tiny values) on a tracing "
+             "DataSet that logs every getter call with its masked argument and every direct access to the private arrays; the harness "
+             "evaluates the numeric witnesses on the real result objects and specs/TraceAnalysis.tla validates all recorded runs in one "
+             "TLC batch.",
+        design_ref="§4 C08",
+        note="One 25-point mock spectrum family; the numeric identities are evaluated by the harness (rtol 1e-9), TLC sees the witnesses as booleans; BHT runs with a re-seeded global RNG.",
+        technique="TLA+ spec (Analysis.tla) + TLC-enumerated configurations driven into the code; code->spec batched trace validation (TraceAnalysis.tla)",
+    ),
     "C14": dict(
         text="The parameter store of Element (specs/ElementParams.tla: set_values/set_lower_limits/set_upper_limits/set_fixed in "
              "keyword, positional and malformed forms, set_label, reset_parameter(s), copy/deepcopy, to_string->parse_cdc, two live "
